@@ -52,6 +52,7 @@ func gen(r *rand.Rand, tier string, i int) input {
 	if tier == "thorough" {
 		p.MaxOps = 50
 		budget = 40
+		p.BigDiscard = 0.01
 	}
 	h := msgh.GenHistory(r, p)
 	in := input{Ops: h.Ops, CrashSeed: r.Uint64(), Budget: budget}
